@@ -48,7 +48,7 @@ Section Invs.
       induction ms as [|m ms IH]; intros rs h acc H; cbn [group_loop]; [exact H|].
       pose proof (recd_Q rs h m H) as H1.
       destruct (recd rs h m) as [rs1 [a|e|]]; cbn [fst] in *; try exact H1.
-      destruct a; try exact H1. apply IH. exact H1.
+      destruct a; try exact H1; apply IH; exact H1.
     Qed.
     Lemma dep_value_Q rs h d : Qrs rs -> Qrs (fst (dep_value recd rs h d)).
     Proof.
